@@ -28,29 +28,28 @@ theorem cmpTy_eq_cmpS (u v : Ty) (hu : u.isNamed = false) (hv : v.isNamed = fals
   · subst h; rw [if_pos rfl, cmpRank_refl, cmpS_self u hu]
   · rw [if_neg h]
 
-theorem cmpS_eq_iff (u v : Ty) (hu : u.isNamed = false) (hv : v.isNamed = false)
-    (gu : u.nnn = true) (gv : v.nnn = true) : cmpS u v = .eq ↔ u = v := by
-  rw [← cmpTy_eq_cmpS u v hu hv]; exact cmpTy_eq_iff u v gu gv
+theorem cmpS_eq_iff (u v : Ty) (hu : u.isNamed = false) (hv : v.isNamed = false) : cmpS u v = .eq ↔ u = v := by
+  rw [← cmpTy_eq_cmpS u v hu hv]; exact cmpTy_eq_iff u v
 
 theorem cmpS_swap (u v : Ty) (hu : u.isNamed = false) (hv : v.isNamed = false) :
     cmpS v u = (cmpS u v).swap := by
   rw [← cmpTy_eq_cmpS u v hu hv, ← cmpTy_eq_cmpS v u hv hu]; exact cmpTy_swap u v
 
 /-- from the structural branch on the underlying types to CompareTypes itself -/
-theorem cmpTy_STr_of (a b c : Ty) (ga : a.nnn = true) (gb : b.nnn = true) (gc : c.nnn = true)
+theorem cmpTy_STr_of (a b c : Ty)
     (hK : STr (cmpS a.under b.under) (cmpS b.under c.under) (cmpS a.under c.under)) :
     STr (cmpTy a b) (cmpTy b c) (cmpTy a c) := by
   rw [cmpTy_def a b, cmpTy_def b c, cmpTy_def a c]
-  have hn : ∀ k, k ∈ [a.under, b.under, c.under] → k.isNamed = false ∧ k.nnn = true := by
+  have hn : ∀ k, k ∈ [a.under, b.under, c.under] → k.isNamed = false := by
     intro k hk
     simp only [List.mem_cons, List.mem_nil_iff, or_false] at hk
     rcases hk with rfl | rfl | rfl
-    · exact ⟨Ty.under_not_named a, Ty.nnn_under a ga⟩
-    · exact ⟨Ty.under_not_named b, Ty.nnn_under b gb⟩
-    · exact ⟨Ty.under_not_named c, Ty.nnn_under c gc⟩
+    · exact Ty.under_not_named a
+    · exact Ty.under_not_named b
+    · exact Ty.under_not_named c
   exact STr.classified (fun u v => cmpS u v) a.under b.under c.under _ _ _
-    (fun k k' hk hk' => cmpS_eq_iff k k' (hn k hk).1 (hn k' hk').1 (hn k hk).2 (hn k' hk').2)
-    (fun k k' hk hk' => cmpS_swap k k' (hn k hk).1 (hn k' hk').1)
+    (fun k k' hk hk' => cmpS_eq_iff k k' (hn k hk) (hn k' hk'))
+    (fun k k' hk hk' => cmpS_swap k k' (hn k hk) (hn k' hk'))
     hK (fun _ _ => cmpRank_STr a b c)
 
 theorem cmpS_by_kind (u v : Ty) (hu : u.isNamed = false) (hv : v.isNamed = false) :
@@ -90,99 +89,68 @@ theorem kind_eq_error {v : Ty} (hv : v.isNamed = false) (h : (7 : Nat) = v.kind)
   cases v <;> simp_all [Ty.isNamed]
 
 mutual
-theorem cmpTy_STr : (a b c : Ty) → a.nnn = true → b.nnn = true → c.nnn = true →
-    STr (cmpTy a b) (cmpTy b c) (cmpTy a c)
-  | .named n x, b, c, ga, gb, gc => by
-    refine cmpTy_STr_of _ b c ga gb gc ?_
-    have hx : x.isNamed = false ∧ x.nnn = true := by simpa [Ty.nnn, Bool.and_eq_true] using ga
-    rw [Ty.under_named_of_nnn ga]
-    have ih := cmpTy_STr x b.under c.under hx.2 (Ty.nnn_under b gb) (Ty.nnn_under c gc)
-    rwa [cmpTy_eq_cmpS x _ hx.1 (Ty.under_not_named b), cmpTy_eq_cmpS _ _ (Ty.under_not_named b) (Ty.under_not_named c),
-      cmpTy_eq_cmpS x _ hx.1 (Ty.under_not_named c)] at ih
-  | .prim i, b, c, ga, gb, gc => by
-    refine cmpTy_STr_of _ b c ga gb gc ?_
+/-- the structural branch is transitive (first argument taken through `under`) -/
+theorem cmpSU_STr : (t v w : Ty) → v.isNamed = false → w.isNamed = false →
+    STr (cmpS t.under v) (cmpS v w) (cmpS t.under w)
+  | .named _ x, v, w, hv, hw => cmpSU_STr x v w hv hw
+  | .prim i, v, w, hv, hw => by
     simp only [Ty.under]
-    have hv := Ty.under_not_named b; have hw := Ty.under_not_named c
-    generalize b.under = v at *; generalize c.under = w at *
     refine cmpS_STr_of _ v w rfl hv hw (fun h1 h2 => ?_)
     obtain ⟨j, rfl⟩ := kind_eq_prim hv (by simpa using h1)
     obtain ⟨k, rfl⟩ := kind_eq_prim hw (by simpa using h2)
     simp only [cmpS_prim]; exact STr_compare_nat _ _ _
-  | .record fs, b, c, ga, gb, gc => by
-    refine cmpTy_STr_of _ b c ga gb gc ?_
+  | .record fs, v, w, hv, hw => by
     simp only [Ty.under]
-    have hv := Ty.under_not_named b; have hw := Ty.under_not_named c
-    have gv := Ty.nnn_under b gb; have gw := Ty.nnn_under c gc
-    generalize b.under = v at *; generalize c.under = w at *
     refine cmpS_STr_of _ v w rfl hv hw (fun h1 h2 => ?_)
     obtain ⟨gs, rfl⟩ := kind_eq_record hv (by simpa using h1)
     obtain ⟨hs, rfl⟩ := kind_eq_record hw (by simpa using h2)
     simp only [cmpS_record]
     refine STr.then (STr_compare_nat _ _ _) (fun e1 e2 => ?_)
     rw [Nat.compare_eq_eq] at e1 e2
-    refine STr.then ?_ (fun _ _ => cmpFs_STr fs gs hs ga gv gw e1 e2)
+    refine STr.then ?_ (fun _ _ => cmpFs_STr fs gs hs e1 e2)
     simp only [cmpFieldNames_eq]
     exact cmpNames_STr _ _ _ (by simp [Fields.names_length, e1]) (by simp [Fields.names_length, e2])
-  | .array x, b, c, ga, gb, gc => by
-    refine cmpTy_STr_of _ b c ga gb gc ?_
+  | .array x, v, w, hv, hw => by
     simp only [Ty.under]
-    have hv := Ty.under_not_named b; have hw := Ty.under_not_named c
-    have gv := Ty.nnn_under b gb; have gw := Ty.nnn_under c gc
-    generalize b.under = v at *; generalize c.under = w at *
     refine cmpS_STr_of _ v w rfl hv hw (fun h1 h2 => ?_)
     obtain ⟨y, rfl⟩ := kind_eq_array hv (by simpa using h1)
     obtain ⟨z, rfl⟩ := kind_eq_array hw (by simpa using h2)
-    simp only [cmpS_array]; exact cmpTy_STr x y z ga gv gw
-  | .set x, b, c, ga, gb, gc => by
-    refine cmpTy_STr_of _ b c ga gb gc ?_
+    simp only [cmpS_array]
+    exact cmpTy_STr_of x y z (cmpSU_STr x y.under z.under (Ty.under_not_named y) (Ty.under_not_named z))
+  | .set x, v, w, hv, hw => by
     simp only [Ty.under]
-    have hv := Ty.under_not_named b; have hw := Ty.under_not_named c
-    have gv := Ty.nnn_under b gb; have gw := Ty.nnn_under c gc
-    generalize b.under = v at *; generalize c.under = w at *
     refine cmpS_STr_of _ v w rfl hv hw (fun h1 h2 => ?_)
     obtain ⟨y, rfl⟩ := kind_eq_set hv (by simpa using h1)
     obtain ⟨z, rfl⟩ := kind_eq_set hw (by simpa using h2)
-    simp only [cmpS_set]; exact cmpTy_STr x y z ga gv gw
-  | .error x, b, c, ga, gb, gc => by
-    refine cmpTy_STr_of _ b c ga gb gc ?_
+    simp only [cmpS_set]
+    exact cmpTy_STr_of x y z (cmpSU_STr x y.under z.under (Ty.under_not_named y) (Ty.under_not_named z))
+  | .error x, v, w, hv, hw => by
     simp only [Ty.under]
-    have hv := Ty.under_not_named b; have hw := Ty.under_not_named c
-    have gv := Ty.nnn_under b gb; have gw := Ty.nnn_under c gc
-    generalize b.under = v at *; generalize c.under = w at *
     refine cmpS_STr_of _ v w rfl hv hw (fun h1 h2 => ?_)
     obtain ⟨y, rfl⟩ := kind_eq_error hv (by simpa using h1)
     obtain ⟨z, rfl⟩ := kind_eq_error hw (by simpa using h2)
-    simp only [cmpS_error]; exact cmpTy_STr x y z ga gv gw
-  | .map k x, b, c, ga, gb, gc => by
-    refine cmpTy_STr_of _ b c ga gb gc ?_
+    simp only [cmpS_error]
+    exact cmpTy_STr_of x y z (cmpSU_STr x y.under z.under (Ty.under_not_named y) (Ty.under_not_named z))
+  | .map k x, v, w, hv, hw => by
     simp only [Ty.under]
-    have hv := Ty.under_not_named b; have hw := Ty.under_not_named c
-    have gv := Ty.nnn_under b gb; have gw := Ty.nnn_under c gc
-    generalize b.under = v at *; generalize c.under = w at *
     refine cmpS_STr_of _ v w rfl hv hw (fun h1 h2 => ?_)
     obtain ⟨k', y, rfl⟩ := kind_eq_map hv (by simpa using h1)
     obtain ⟨k'', z, rfl⟩ := kind_eq_map hw (by simpa using h2)
-    simp only [Ty.nnn, Bool.and_eq_true] at ga gv gw
     simp only [cmpS_map]
-    exact STr.then (cmpTy_STr k k' k'' ga.1 gv.1 gw.1) (fun _ _ => cmpTy_STr x y z ga.2 gv.2 gw.2)
-  | .union ts, b, c, ga, gb, gc => by
-    refine cmpTy_STr_of _ b c ga gb gc ?_
+    exact STr.then
+      (cmpTy_STr_of k k' k'' (cmpSU_STr k k'.under k''.under (Ty.under_not_named k') (Ty.under_not_named k'')))
+      (fun _ _ => cmpTy_STr_of x y z (cmpSU_STr x y.under z.under (Ty.under_not_named y) (Ty.under_not_named z)))
+  | .union ts, v, w, hv, hw => by
     simp only [Ty.under]
-    have hv := Ty.under_not_named b; have hw := Ty.under_not_named c
-    have gv := Ty.nnn_under b gb; have gw := Ty.nnn_under c gc
-    generalize b.under = v at *; generalize c.under = w at *
     refine cmpS_STr_of _ v w rfl hv hw (fun h1 h2 => ?_)
     obtain ⟨us, rfl⟩ := kind_eq_union hv (by simpa using h1)
     obtain ⟨ws, rfl⟩ := kind_eq_union hw (by simpa using h2)
     simp only [cmpS_union]
     refine STr.then (STr_compare_nat _ _ _) (fun e1 e2 => ?_)
     rw [Nat.compare_eq_eq] at e1 e2
-    exact cmpTs_STr ts us ws ga gv gw e1 e2
-  | .enum s, b, c, ga, gb, gc => by
-    refine cmpTy_STr_of _ b c ga gb gc ?_
+    exact cmpTs_STr ts us ws e1 e2
+  | .enum s, v, w, hv, hw => by
     simp only [Ty.under]
-    have hv := Ty.under_not_named b; have hw := Ty.under_not_named c
-    generalize b.under = v at *; generalize c.under = w at *
     refine cmpS_STr_of _ v w rfl hv hw (fun h1 h2 => ?_)
     obtain ⟨s', rfl⟩ := kind_eq_enum hv (by simpa using h1)
     obtain ⟨s'', rfl⟩ := kind_eq_enum hw (by simpa using h2)
@@ -190,30 +158,37 @@ theorem cmpTy_STr : (a b c : Ty) → a.nnn = true → b.nnn = true → c.nnn = t
     refine STr.then (STr_compare_nat _ _ _) (fun e1 e2 => ?_)
     rw [Nat.compare_eq_eq] at e1 e2
     exact cmpNames_STr _ _ _ e1 e2
-theorem cmpFs_STr : (fs gs hs : Fields) → fs.nnn = true → gs.nnn = true → hs.nnn = true →
+theorem cmpFs_STr : (fs gs hs : Fields) →
     fs.length = gs.length → gs.length = hs.length → STr (cmpFs fs gs) (cmpFs gs hs) (cmpFs fs hs)
-  | .nil, .nil, .nil, _, _, _, _, _ => by simp [cmpFs, STr]
-  | .nil, .nil, .cons _ _ _, _, _, _, _, h => by simp [Fields.length] at h
-  | .nil, .cons _ _ _, _, _, _, _, h, _ => by simp [Fields.length] at h
-  | .cons _ _ _, .nil, _, _, _, _, h, _ => by simp [Fields.length] at h
-  | .cons _ _ _, .cons _ _ _, .nil, _, _, _, _, h => by simp [Fields.length] at h
-  | .cons _ x r, .cons _ y s, .cons _ z t, ga, gb, gc, h1, h2 => by
-    simp only [Fields.nnn, Bool.and_eq_true] at ga gb gc
+  | .nil, .nil, .nil, _, _ => by simp [cmpFs, STr]
+  | .nil, .nil, .cons _ _ _, _, h => by simp [Fields.length] at h
+  | .nil, .cons _ _ _, _, h, _ => by simp [Fields.length] at h
+  | .cons _ _ _, .nil, _, h, _ => by simp [Fields.length] at h
+  | .cons _ _ _, .cons _ _ _, .nil, _, h => by simp [Fields.length] at h
+  | .cons _ x r, .cons _ y s, .cons _ z t, h1, h2 => by
     simp only [Fields.length, Nat.add_right_cancel_iff] at h1 h2
     simp only [cmpFs_cons]
-    exact STr.then (cmpTy_STr x y z ga.1 gb.1 gc.1) (fun _ _ => cmpFs_STr r s t ga.2 gb.2 gc.2 h1 h2)
-theorem cmpTs_STr : (ts us ws : Tys) → ts.nnn = true → us.nnn = true → ws.nnn = true →
+    exact STr.then
+      (cmpTy_STr_of x y z (cmpSU_STr x y.under z.under (Ty.under_not_named y) (Ty.under_not_named z)))
+      (fun _ _ => cmpFs_STr r s t h1 h2)
+theorem cmpTs_STr : (ts us ws : Tys) →
     ts.length = us.length → us.length = ws.length → STr (cmpTs ts us) (cmpTs us ws) (cmpTs ts ws)
-  | .nil, .nil, .nil, _, _, _, _, _ => by simp [cmpTs, STr]
-  | .nil, .nil, .cons _ _, _, _, _, _, h => by simp [Tys.length] at h
-  | .nil, .cons _ _, _, _, _, _, h, _ => by simp [Tys.length] at h
-  | .cons _ _, .nil, _, _, _, _, h, _ => by simp [Tys.length] at h
-  | .cons _ _, .cons _ _, .nil, _, _, _, _, h => by simp [Tys.length] at h
-  | .cons x r, .cons y s, .cons z t, ga, gb, gc, h1, h2 => by
-    simp only [Tys.nnn, Bool.and_eq_true] at ga gb gc
+  | .nil, .nil, .nil, _, _ => by simp [cmpTs, STr]
+  | .nil, .nil, .cons _ _, _, h => by simp [Tys.length] at h
+  | .nil, .cons _ _, _, h, _ => by simp [Tys.length] at h
+  | .cons _ _, .nil, _, h, _ => by simp [Tys.length] at h
+  | .cons _ _, .cons _ _, .nil, _, h => by simp [Tys.length] at h
+  | .cons x r, .cons y s, .cons z t, h1, h2 => by
     simp only [Tys.length, Nat.add_right_cancel_iff] at h1 h2
     simp only [cmpTs_cons]
-    exact STr.then (cmpTy_STr x y z ga.1 gb.1 gc.1) (fun _ _ => cmpTs_STr r s t ga.2 gb.2 gc.2 h1 h2)
+    exact STr.then
+      (cmpTy_STr_of x y z (cmpSU_STr x y.under z.under (Ty.under_not_named y) (Ty.under_not_named z)))
+      (fun _ _ => cmpTs_STr r s t h1 h2)
 end
+
+/-- `zed.CompareTypes` is transitive on all types -/
+theorem cmpTy_STr (a b c : Ty) : STr (cmpTy a b) (cmpTy b c) (cmpTy a c) :=
+  cmpTy_STr_of a b c (cmpSU_STr a b.under c.under (Ty.under_not_named b) (Ty.under_not_named c))
+
 
 end Zed
